@@ -329,13 +329,18 @@ def run_interleaving(scn, choices):
         hs = [leaf(i) for i in range(scn['size'])]
         pending = []
 
+        early = scn.get('capture') == 'early'
+
         async def source(start, count):
             fut = loop.create_future()
             pending.append((fut, start, count))
+            # 'early': the worker thread has read the data when the request was made and only
+            # the hand-over is late; otherwise the read happens at the hand-over
+            got = hs[start:start + count] if early else None
             await fut
             if start < 0 or count < 0 or start + count > len(hs):
                 raise common.Broken('source read out of range')
-            return hs[start:start + count]
+            return got if early else hs[start:start + count]
 
         cache = MerkleCache(Merkle(), source)
         init = loop.create_task(cache.initialize(scn['l0']))
@@ -346,6 +351,8 @@ def run_interleaving(scn, choices):
         tasks = [loop.create_task(cache.branch_and_root(l, i, tsc_format=t))
                  for l, i, t in scn['queries']]
         trunc_left = [scn['truncate']] if scn.get('truncate') else []
+        if scn.get('reorg'):
+            trunc_left = [('reorg', scn['reorg'])]
         menus, taken = [], []
         pos = 0
         while True:
@@ -364,7 +371,14 @@ def run_interleaving(scn, choices):
             if act[0] == 'read':
                 pending.pop(act[1])[0].set_result(None)
             else:
-                cache.truncate(trunc_left.pop(0))
+                t_ = trunc_left.pop(0)
+                if isinstance(t_, tuple):
+                    # a reorganisation: the source changes from t on and the owner truncates
+                    for i in range(t_[1], len(hs)):
+                        hs[i] = leaf(i + 1000)
+                    cache.truncate(t_[1])
+                else:
+                    cache.truncate(t_)
         results = []
         for t in tasks:
             if not t.done():
@@ -387,14 +401,25 @@ def case_concurrent(case, res):
             res.count('interleavings')
             res.distinct('interleaving_shapes', tuple(taken))
             bad = None
+            old = [leaf(i) for i in range(scn['size'])]
             for (length, index, tsc), (kind, val) in zip(scn['queries'], results):
                 levels = ref_levels(hs[:length])
                 want = (ref_branch(levels, index, tsc), levels[-1][0])
-                if scn.get('truncate'):
-                    # C12 does not speak of a truncate landing while a query is in flight (C11
-                    # does: there it comes with a reorganisation); only the cache left behind is
-                    # judged for these scenarios.
-                    res.count('in_flight_replies_not_judged')
+                if scn.get('reorg'):
+                    # in flight across a reorganisation: refused, or right for the old or for
+                    # the new source
+                    olv = ref_levels(old[:length])
+                    if kind == 'ok' and (val[0], val[1]) not in (
+                            want, (ref_branch(olv, index, tsc), olv[-1][0])):
+                        bad = dict(query=(length, index, tsc), got='matches neither source')
+                        break
+                    res.count('in_flight_across_reorg_' + ('answered' if kind == 'ok' else 'refused'))
+                    continue
+                if scn.get('truncate') and kind != 'ok':
+                    # a truncate landing while a query is in flight: the source did not change
+                    # here, so a reply must equal the from-scratch computation; a REFUSAL is
+                    # accepted (in the server a truncate comes with a shorter chain)
+                    res.count('in_flight_queries_refused_across_truncate')
                     continue
                 if kind != 'ok' or (val[0], val[1]) != want:
                     bad = dict(query=(length, index, tsc), got=kind if kind != 'ok' else 'wrong',
@@ -440,6 +465,13 @@ def concurrent_cases(tier):
                     scn = dict(size=size, l0=l0, truncate=trunc,
                                queries=[(la, la // 2, False), (lb, lb - 1, True)])
                     cases.append({'kind': 'concurrent', 'scn': scn})
+                # the source changes from t on while the lookups are in flight (a read made
+                # before it may be handed over after it)
+                for t in (4, 9, 20, 33):
+                    for capture in ('early', 'late'):
+                        scn = dict(size=size, l0=l0, reorg=t, capture=capture,
+                                   queries=[(la, la // 2, False), (lb, lb - 1, True)])
+                        cases.append({'kind': 'concurrent', 'scn': scn})
         if tier != 'quick':
             # three concurrent lookups: the interleavings grow too fast for longer lists
             # (one (17, 30, 33) scenario alone did not finish in ten minutes)
